@@ -190,6 +190,77 @@ Proof.
   rewrite Hp, is_dir_at_set_hidden. auto.
 Qed.
 
+(* ---------------------------------------------------------------- reopening (renumbering empty contents) *)
+Lemma renum_paths em base k l : map e_path (renum em base k l) = map e_path l.
+Proof.
+  revert k; induction l as [|e l IH]; intros k; cbn [renum map]; [reflexivity|]. rewrite IH. f_equal.
+  destruct (e_kind e); try reflexivity. destruct (is_empty_blob em _); reflexivity.
+Qed.
+
+Lemma renum_lookup_dir em base k l q :
+  match lookup (renum em base k l) q with Some e => match e_kind e with KDir => true | _ => false end | None => false end =
+  match lookup l q with Some e => match e_kind e with KDir => true | _ => false end | None => false end.
+Proof.
+  unfold lookup. revert k; induction l as [|a l IH]; intros k; cbn [renum find]; [reflexivity|].
+  destruct (e_kind a) as [|b|t] eqn:Ea.
+  - destruct (path_eqb (e_path a) q); [rewrite Ea; reflexivity|apply IH].
+  - destruct (is_empty_blob em b); cbn [e_path].
+    + destruct (path_eqb (e_path a) q); [cbn [e_kind]; rewrite Ea; reflexivity|apply IH].
+    + destruct (path_eqb (e_path a) q); [rewrite Ea; reflexivity|apply IH].
+  - destruct (path_eqb (e_path a) q); [rewrite Ea; reflexivity|apply IH].
+Qed.
+
+Lemma is_dir_at_renum em base k l q : is_dir_at (renum em base k l) q = is_dir_at l q.
+Proof. unfold is_dir_at. destruct q as [|c q]; [reflexivity|]. apply renum_lookup_dir. Qed.
+
+Lemma renum_in em base k l e : In e (renum em base k l) -> exists x, In x l /\ e_path e = e_path x.
+Proof.
+  revert k; induction l as [|a l IH]; intros k; cbn [renum]; [intros []|].
+  intros [H|H].
+  - exists a. split; [left; reflexivity|]. subst e. destruct (e_kind a); try reflexivity.
+    destruct (is_empty_blob em _); reflexivity.
+  - destruct (IH _ H) as (x & Hx & Hp). exists x. split; [right; exact Hx|exact Hp].
+Qed.
+
+Lemma wf_ns_renum em base k l : wf_ns l -> wf_ns (renum em base k l).
+Proof.
+  intros [Hnd Hpar]. split; [rewrite renum_paths; exact Hnd|].
+  intros e He. destruct (renum_in _ _ _ _ _ He) as (x & Hx & Hp). rewrite Hp, is_dir_at_renum. apply Hpar. exact Hx.
+Qed.
+
+(* a map that keeps paths and directory-ness keeps well-formedness *)
+Lemma lookup_map_dir (f : entry -> entry) l q :
+  (forall e, e_path (f e) = e_path e) ->
+  (forall e, match e_kind (f e) with KDir => true | _ => false end = match e_kind e with KDir => true | _ => false end) ->
+  match lookup (map f l) q with Some e => match e_kind e with KDir => true | _ => false end | None => false end =
+  match lookup l q with Some e => match e_kind e with KDir => true | _ => false end | None => false end.
+Proof.
+  intros Hp Hk. unfold lookup. induction l as [|a l IH]; cbn [map find]; [reflexivity|].
+  rewrite Hp. destruct (path_eqb (e_path a) q); [apply Hk|exact IH].
+Qed.
+
+Lemma wf_ns_map (f : entry -> entry) l :
+  (forall e, e_path (f e) = e_path e) ->
+  (forall e, match e_kind (f e) with KDir => true | _ => false end = match e_kind e with KDir => true | _ => false end) ->
+  wf_ns l -> wf_ns (map f l).
+Proof.
+  intros Hp Hk [Hnd Hpar].
+  assert (Hmap : map e_path (map f l) = map e_path l) by (rewrite map_map; apply map_ext; exact Hp).
+  split; [rewrite Hmap; exact Hnd|].
+  intros e He. apply in_map_iff in He. destruct He as (x & Hx1 & Hx2). subst e. rewrite Hp.
+  destruct (Hpar x Hx2) as [H1 H2]. split; [exact H1|].
+  unfold is_dir_at in *. destruct (parent_of (e_path x)) as [|c q]; [reflexivity|].
+  rewrite lookup_map_dir; assumption.
+Qed.
+
+Lemma wf_ns_renum_shared em base l : wf_ns l -> wf_ns (renum_shared em base l).
+Proof.
+  intros H. unfold renum_shared. apply wf_ns_map; [| |exact H].
+  - intros e. destruct (e_kind e); try reflexivity. destruct (is_empty_blob em _); reflexivity.
+  - intros e. destruct (e_kind e) eqn:Ek; try (rewrite Ek; reflexivity).
+    destruct (is_empty_blob em _); [reflexivity|rewrite Ek; reflexivity].
+Qed.
+
 (* ---------------------------------------------------------------- steps preserve well-formedness *)
 Lemma wf_get s n : wf_fs s -> wf_ns (get_ns s n).
 Proof. intros (H1 & H2 & H3). destruct n; assumption. Qed.
@@ -240,7 +311,7 @@ Qed.
 Theorem step_preserves_wf s o : wf_fs s -> wf_fs (fst (step s o)).
 Proof.
   intros Hw. destruct o as [blob iso jol udf|iso jol udf|n p|iso jol udf|src n p rr|n p|p rr t|ip up t|n p h
-                            |bf cat crr cjol cudf|bf| | ]; cbn [step].
+                            |bf cat crr cjol cudf|bf| |em base| ]; cbn [step].
   - (* AddFp *)
     match goal with |- context [if ?c then _ else _] => destruct c eqn:E end; [|exact Hw].
     split_andb E. cbn [fst]. apply wf_add3; assumption.
@@ -308,6 +379,7 @@ Proof.
   - (* RmEltorito *)
     destruct (f_boot s); [|exact Hw]. cbn [fst].
     destruct Hw as (H1 & H2 & H3). unfold wf_fs; cbn. auto using wf_ns_drop_blob.
+  - (* Reopen *) cbn [fst]. destruct Hw as (H1 & H2 & H3). unfold wf_fs; cbn. auto using wf_ns_renum, wf_ns_renum_shared.
   - (* Bad *) exact Hw.
 Qed.
 
